@@ -268,8 +268,13 @@ def run(ctx):
             ctx.report("internal-error", "parsing ended in an internal exception", {"input": inp, "impl": impl})
             continue
         if impl["kind"] != "ok":
-            ctx.report("ast-not-faithful:well-typed-program-rejected", "a well-typed two-file program is not accepted",
-                       {"input": inp, "impl": {k: v for k, v in impl.items() if k not in ("ast", "bindings")}})
+            # the generator aims at well-typed programs; whether this one is, is the front-end model's call
+            req = front.front_request({"/w/m.djinni": main_text, "/w/lib.djinni": lib_text, **({"/w/sub/x.djinni": ""} if "sub/" in main_text.split("\n")[0] else {})}, "/w/m.djinni")
+            m = ctx.driver.one(req)
+            ctx.stat("import_rejected_model_" + str(m.get("kind")))
+            if m.get("kind") == "ok":
+                ctx.report("ast-not-faithful:accepted-by-the-model-rejected-by-the-parser", "a two-file program the front-end model accepts is rejected",
+                           {"input": inp, "impl": {k: v for k, v in impl.items() if k not in ("ast", "bindings")}})
             continue
         fails = spec_failures(main_text, main_order, impl, keys, ())
         got = {(tuple(d["ns"]), d["n"]): d for d in impl["defs_dump"]}
